@@ -130,9 +130,18 @@ def pick {α : Type} : List Bool → List α → List α
   | false :: m, _ :: zs => pick m zs
   | _, _ => []
 
+/-- A log file comes back under its name: the directory listing is ordered by number; a name
+that has been reused in the meantime stays with its new owner. -/
+def insertFile (z : LogFile) : List LogFile → List LogFile
+  | [] => [z]
+  | f :: fs =>
+    if z.num < f.num then z :: f :: fs
+    else if z.num = f.num then f :: fs
+    else f :: insertFile z fs
+
 /-- A crash: the unlinks that were not made durable may be undone, any subset of them. -/
 def Disk.resurrect (d : Disk) (mask : List Bool) : Disk :=
-  { d with files := pick mask d.zombies ++ d.files, zombies := [] }
+  { d with files := (pick mask d.zombies).foldr insertFile d.files, zombies := [] }
 
 /-! ### The store -/
 
@@ -201,30 +210,52 @@ def Store.minLive (s : Store) : Nat :=
 
 /-- Result of an operation that touches the directory. `bases` lists every durable state the
 operation passes through, in order, each with a flag: the batch being flushed is completely on
-disk in that state. A crash image is a base with any subset of its zombies resurrected. -/
+disk in that state. A crash image is a base with any subset of its zombies resurrected.
+`removed` (ghost): the logs the operation unlinked. -/
 structure OpRes where
   st : Store
   disk : Disk
   out : Outcome
   bases : List (Disk × Bool)
+  removed : List LogFile := []
+
+/-- `ensureWriter` when no failure is pending: `manager.Create` = create the next log, then
+sync the directory. Returns the store, the directory before and after the directory sync. -/
+def ensureWriter (s : Store) (d : Disk) : Store × Disk × Disk :=
+  match s.writer with
+  | some _ => (s, d, d)
+  | none =>
+    ({ s with writer := some s.nextWAL, nextWAL := s.nextWAL + 1 },
+     { d with files := d.files ++ [{ num := s.nextWAL }] },
+     { d with files := d.files ++ [{ num := s.nextWAL }], zombies := [] })
+
+/-- The tail of `removeObsoleteWALFiles` once the interval is reached: `writePruneWatermark`
+(tmp, rename, directory sync), `rotateAfterSynced`, `cleanupObsoleteWALs`. `s` already has the
+batch indexed, `d` has it on disk in log `n`. -/
+def cleanup (s : Store) (d : Disk) (n : Nat) : OpRes :=
+  let dTmp := { d with tmp := true }
+  let dRen := { d with wm := some s.idx.pruned, tmp := true }
+  let dRen' := { d with wm := some s.idx.pruned, tmp := false }
+  let dWm := { d with wm := some s.idx.pruned, tmp := false, zombies := [] }
+  -- rotateAfterSynced: the writer is closed (an EOF trailer is appended)
+  let dTrail := dWm.setGarbage n true
+  let s' := { s with writer := none }
+  let minLive := s'.minLive
+  let dead := dWm.files.filter (fun f => decide (f.num < minLive))
+  let dGc := { dWm with files := dWm.files.filter (fun f => !decide (f.num < minLive)), zombies := dead }
+  ⟨{ s' with sinceCleanup := 0 }, dGc, .ok,
+    [(dTmp, true), (dRen, true), (dRen', true), (dWm, true), (dTrail, true), (dGc, true)], dead⟩
 
 /-- `flushLocked`. -/
 def flushLocked (s : Store) (d : Disk) (ft : Fault) : OpRes :=
-  if s.closed then ⟨s, d, .closed, [(d, false)]⟩
-  else if s.pending.isEmpty then ⟨s, d, .ok, [(d, false)]⟩
-  else if s.repairRequired then ⟨s, d, .errNotCommitted, [(d, false)]⟩
+  if s.closed then ⟨s, d, .closed, [(d, false)], []⟩
+  else if s.pending.isEmpty then ⟨s, d, .ok, [(d, false)], []⟩
+  else if s.repairRequired then ⟨s, d, .errNotCommitted, [(d, false)], []⟩
   else
-    -- ensureWriter: manager.Create = create file + directory sync
     let n := s.writer.getD s.nextWAL
-    let dNew : Disk := match s.writer with
-      | some _ => d
-      | none => { d with files := d.files ++ [{ num := s.nextWAL }] }
-    let d1 : Disk := match s.writer with
-      | some _ => d
-      | none => { dNew with zombies := [] }
-    let s1 : Store := match s.writer with
-      | some _ => s
-      | none => { s with writer := some s.nextWAL, nextWAL := s.nextWAL + 1 }
+    let s1 := (ensureWriter s d).1
+    let dNew := (ensureWriter s d).2.1
+    let d1 := (ensureWriter s d).2.2
     let bs1 := [(d, false), (dNew, false), (d1, false)]
     let dTorn := d1.setGarbage n true
     let dFull := d1.appendBatch n s.pending
@@ -232,41 +263,26 @@ def flushLocked (s : Store) (d : Disk) (ft : Fault) : OpRes :=
     | .append =>
       -- abortUncommitted: close the writer, truncate back to the synced offset
       ⟨{ s1 with writer := none }, d1, .errNotCommitted,
-        bs1 ++ [(dTorn, false), (dFull, true), (d1, false)]⟩
+        bs1 ++ [(dTorn, false), (dFull, true), (d1, false)], []⟩
     | .appendNoRepair =>
       ⟨{ s1 with writer := none, repairRequired := true }, dTorn, .errNotCommitted,
-        bs1 ++ [(dTorn, false)]⟩
+        bs1 ++ [(dTorn, false)], []⟩
     | _ =>
-      let idx := s1.idx.applyRecs n s.pending
-      let s2 := { s1 with idx := idx, pending := [] }
+      -- appended and synced; updateIndexesFromCommittedRecords
+      let s2 := { s1 with idx := s1.idx.applyRecs n s.pending, pending := [] }
       let bs2 := bs1 ++ [(dTorn, false), (dFull, true)]
       let prunes := countPrunes s.pending
       -- removeObsoleteWALFiles
-      if prunes = 0 then ⟨s2, dFull, .ok, bs2⟩
+      if prunes = 0 then ⟨s2, dFull, .ok, bs2, []⟩
       else
-        let since := s.sinceCleanup + prunes
-        let s3 := { s2 with sinceCleanup := since }
-        if since < cleanupInterval then ⟨s3, dFull, .ok, bs2⟩
+        let s3 := { s2 with sinceCleanup := s.sinceCleanup + prunes }
+        if s.sinceCleanup + prunes < cleanupInterval then ⟨s3, dFull, .ok, bs2, []⟩
+        else if ft = .watermark then
+          ⟨s3, { dFull with tmp := false }, .errCommitted,
+            bs2 ++ [({ dFull with tmp := true }, true), ({ dFull with tmp := false }, true)], []⟩
         else
-          let dTmp := { dFull with tmp := true }
-          let dNoTmp := { dFull with tmp := false }
-          if ft = .watermark then
-            ⟨s3, dNoTmp, .errCommitted, bs2 ++ [(dTmp, true), (dNoTmp, true)]⟩
-          else
-            -- writePruneWatermark: tmp, rename, directory sync
-            let dRen := { dFull with wm := some idx.pruned, tmp := true }
-            let dRen' := { dFull with wm := some idx.pruned, tmp := false }
-            let dWm := { dRen' with zombies := [] }
-            -- rotateAfterSynced: the writer is closed (an EOF trailer is appended)
-            let dTrail := dWm.setGarbage n true
-            let s4 := { s3 with writer := none }
-            -- cleanupObsoleteWALs
-            let minLive := s4.minLive
-            let dGc := { dWm with files := dWm.files.filter (fun f => !(f.num < minLive)),
-                                  zombies := dWm.files.filter (fun f => f.num < minLive) }
-            ⟨{ s4 with sinceCleanup := 0 }, dGc, .ok,
-              bs2 ++ [(dTmp, true), (dRen, true), (dRen', true), (dWm, true), (dTrail, true),
-                (dGc, true)]⟩
+          let r := cleanup s3 dFull n
+          { r with bases := bs2 ++ r.bases }
 
 def Outcome.committed : Outcome → Bool
   | .ok => true
@@ -275,14 +291,14 @@ def Outcome.committed : Outcome → Bool
 
 /-- `Close`. -/
 def closeStore (s : Store) (d : Disk) (ft : Fault) : OpRes :=
-  if s.closed then ⟨s, d, .ok, [(d, false)]⟩
+  if s.closed then ⟨s, d, .ok, [(d, false)], []⟩
   else
     let r := flushLocked s d ft
     let dTrail := match r.st.writer with
       | some n => r.disk.setGarbage n true
       | none => r.disk
     ⟨{ r.st with closed := true, writer := none }, r.disk, r.out,
-      r.bases ++ [(dTrail, r.out.committed), (r.disk, r.out.committed)]⟩
+      r.bases ++ [(dTrail, r.out.committed), (r.disk, r.out.committed)], r.removed⟩
 
 /-- `recoverLatestWALTail`: the invalid tail of the latest log is cut off. -/
 def clearLastGarbage : List LogFile → List LogFile
@@ -361,9 +377,6 @@ def allMasks : Nat → List (List Bool)
 def Sys.images (sys : Sys) (c : COp) : List (Disk × Bool) :=
   (sys.bases c).flatMap (fun b => (allMasks b.1.zombies.length).map (fun m => (b.1.resurrect m, b.2)))
 
-def removedBy (before after : Disk) : List LogFile :=
-  before.files.filter (fun f => !(after.files.any (fun g => g.num == f.num)))
-
 def Sys.step (sys : Sys) : Op → Sys × Outcome
   | .set h e =>
     if !sys.alive then (sys, .dead) else
@@ -376,20 +389,18 @@ def Sys.step (sys : Sys) : Op → Sys × Outcome
   | .flush ft =>
     if !sys.alive then (sys, .dead) else
     let r := flushLocked sys.st sys.disk ft
-    let done := r.out.committed && !sys.st.pending.isEmpty
     ({ sys with st := r.st, disk := r.disk,
                 acked := if r.out.committed then sys.acked ++ sys.calls else sys.acked,
                 calls := if r.out.committed then [] else sys.calls,
-                removed := if done then sys.removed ++ removedBy sys.disk r.disk else sys.removed },
+                removed := sys.removed ++ r.removed },
      r.out)
   | .close ft =>
     if !sys.alive then (sys, .dead) else
     let r := closeStore sys.st sys.disk ft
-    let done := r.out.committed && !sys.st.closed && !sys.st.pending.isEmpty
     ({ sys with st := r.st, disk := r.disk,
                 acked := if r.out.committed && !sys.st.closed then sys.acked ++ sys.calls else sys.acked,
                 calls := if r.out.committed && !sys.st.closed then [] else sys.calls,
-                removed := if done then sys.removed ++ removedBy sys.disk r.disk else sys.removed },
+                removed := sys.removed ++ r.removed },
      r.out)
   | .reopen =>
     if sys.alive && !sys.st.closed then (sys, .bad) else
@@ -408,5 +419,31 @@ def Sys.run (sys : Sys) (ops : List Op) : Sys := ops.foldl (fun s o => (s.step o
 
 /-- A fresh data directory, no process. -/
 def Sys.init : Sys := {}
+
+
+/-! ### What the property says a restarted validator must see -/
+
+/-- The highest height of a prune call in a history of API calls (`0`: none; juno's watermark
+uses the same encoding, so height `0` always counts as pruned). -/
+def maxPrune : List Rec → Nat
+  | [] => 0
+  | .prune h :: rs => max h (maxPrune rs)
+  | .entry _ _ :: rs => maxPrune rs
+
+/-- The payloads of the entries of height `h` in a history, in call order. -/
+def entriesOf (h : Nat) : List Rec → List Nat
+  | [] => []
+  | .entry h' e :: rs => if h' = h then e :: entriesOf h rs else entriesOf h rs
+  | .prune _ :: rs => entriesOf h rs
+
+/-- `out` (what `LoadAllEntries` yields: heights with their entries) is exactly what the
+property allows after the acknowledged calls `A`: heights ascending, and for every height above
+the highest acknowledged prune all acknowledged entries of that height in call order, nothing
+for the heights at or below it, nothing else. These three clauses determine `out`
+(`Props.loadSpec_unique`). -/
+structure LoadSpec (out : List (Nat × List Nat)) (A : List Rec) : Prop where
+  sorted : (out.map (·.1)).Pairwise (· < ·)
+  nonempty : ∀ p ∈ out, p.2 ≠ []
+  exact : ∀ h, (AMap.get? out h).getD [] = if h ≤ maxPrune A then [] else entriesOf h A
 
 end Juno.C14
